@@ -493,3 +493,33 @@ impl<'a> SemanticBuilder<'a> {
         self.contains_position(token.text_range().start())
     }
 }
+
+/// verification hook: run the real `push_data` / `build` on caller-supplied ranges
+#[cfg(emmyluals_emmylua_analyzer_rust_verif)]
+pub fn verif_semantic_push_and_build(
+    document: &LuaDocument,
+    multi_line_support: bool,
+    pushes: &[(u32, u32, u32, u32)],
+) -> Vec<[u32; 5]> {
+    let mut builder = SemanticBuilder::new(document, multi_line_support);
+    for (start, end, typ, modifiers) in pushes {
+        builder.push_data(
+            TextRange::new(TextSize::from(*start), TextSize::from(*end)),
+            *typ,
+            *modifiers,
+        );
+    }
+    builder
+        .build()
+        .into_iter()
+        .map(|t| {
+            [
+                t.delta_line,
+                t.delta_start,
+                t.length,
+                t.token_type,
+                t.token_modifiers_bitset,
+            ]
+        })
+        .collect()
+}
